@@ -308,6 +308,7 @@ def manual_items(cls, spec, ext, table, classes):
             items.append({'k': 'field', 'name': seg[1] or 'seconds', 'w': 8, 'codec': ('ext', 0), 'attr': seg[1], 'py': 'timestamp'})
         elif seg[0] == 'details':
             _, attr, discard, strict = seg
+            discard = bool(getattr(cls, '_DISREGARD_P1_TIME', discard))     # read from the class where it says so
             md = classes['MeasurementDetails']
             sub = manual_items(md, table['MeasurementDetails'], ext, table, classes)
             if discard:   # unpack() replaces details.p1_time by an invalid Timestamp
